@@ -211,13 +211,14 @@ h("c04_pinned_header_short_value", ["C04"], "quick", "expected: any value of len
 # ---------------------------------------------------------------------------
 IOR = ["IoChunkReader::poll_chunk"]
 MOCK_IO = "mock AsyncRead/AsyncSeek/AsyncWrite implementors in the harness: a read returns any 0<n<=asked bytes of a fixed file (short read), Pending, EOF or an error; seeks record their target and may fail / complete later; writes may fail or accept only a prefix at any call"
-for nm, u in (("s2_s3_b0", "quick"), ("s3_s1_b3", "quick"), ("s1_s4_b2", "thorough")):
-    h("c08_io_seek_step_" + nm, ["C08", "C17"], u, "two chunks with the sizes in the name (concrete), offsets < 20 symbolic (any order), position symbolic; seek may fail / complete later; previous buffer length as in the name",
-      "state Seek: the reader seeks to exactly the chunk's own offset (no adjacency assumed), then asks for exactly `size` bytes with a buffer of exactly that size", IOR, [MOCK_IO])
-for nm, u in (("s2_b1", "quick"), ("s3_b0", "quick"), ("s1_b0", "thorough"), ("s2_b0", "thorough"), ("s3_b1", "thorough"), ("s3_b2", "thorough"), ("s4_b1", "thorough")):
-    h("c08_io_read_step_" + nm, ["C08"], u, "chunk size / bytes already read as in the name (concrete); offsets symbolic; the reader's answer symbolic: short read of 1..4 bytes, Pending, EOF, error",
-      "state Read under invariant J: a short read appends exactly n bytes and keeps J, a complete chunk is emitted as exactly its bytes (index+1, next chunk located by its own seek), Pending changes nothing, EOF => UnexpectedEof, errors forwarded",
-      IOR, [MOCK_IO], heavy=True)
+for nm, u in (("s2_s3_b0", "quick"), ("s3_s1_b3", "quick"), ("s2_s3_b2_i1", "quick"), ("s1_s4_b2", "quick")):
+    h("c08_io_seek_step_" + nm, ["C08", "C17"], u, "two chunks with the sizes, the previous buffer length and the position in the name (concrete), offsets < 20 symbolic (any order); seek may fail / complete later",
+      "state Seek: the reader seeks to exactly the chunk's own offset (no adjacency assumed), then asks for exactly `size` bytes with a buffer of exactly that size; a pending seek is completed before any read", IOR, [MOCK_IO])
+for nm, u in (("s2_b1", "quick"), ("s3_b0", "quick"), ("s1_b0", "quick"), ("s2_b0", "quick"), ("s3_b1", "quick"), ("s3_b2", "quick"), ("s4_b1", "quick"),
+              ("s2_b1_last", "quick"), ("s3_b0_last", "quick")):
+    h("c08_io_read_step_" + nm, ["C08", "C17"], u, "chunk size / bytes already read as in the name (concrete), position concrete (first, or `_last`); offsets symbolic; the reader's answer symbolic: short read of 1..4 bytes, Pending, EOF, error",
+      "state Read under invariant J: a short read appends exactly n bytes and keeps J, a complete chunk is emitted as exactly its bytes (index+1; the next chunk is located by its own seek, or the cursor is provably at its offset), Pending changes nothing, EOF => UnexpectedEof, errors forwarded",
+      IOR, [MOCK_IO])
 h("c08_io_end_of_list", ["C08"], "quick", "index at the end of a 2-chunk list", "end of list => end of stream without touching the reader", IOR, [MOCK_IO])
 h("c08_first_error_ends_stream", ["C08"], "quick", "inner stream of up to 4 items, each Ok/Err/end: symbolic",
   "after the first Err the wrapper yields None forever and never polls the inner stream again", ["StreamUntilFirstError::poll_next"])
